@@ -38,6 +38,8 @@ def patterns():
         'subscript': lambda: M.MSubscript(value=m(v=...), slice=m(s=...), ctx=Load),
         'ifexp': lambda: M.MIfExp(test=m(t=...), body=m(b=...), orelse=m(e=...)),
         'boolop2': lambda: M.MBoolOp(values=[m(a=...), m(b=...)]),
+        'add0': lambda: M.MBinOp(left=m(l=...), op=M.MAdd, right=M.MConstant(0)),
+        'not_': lambda: M.MUnaryOp(op=M.MNot, operand=m(x=...)),
         'ret': lambda: M.MReturn(value=m(v=...)),
         'if_': lambda: M.MIf(test=m(t=...), body=m(b=...), orelse=m(e=...)),
         'assign1': lambda: M.MAssign(targets=[m(t=...)], value=m(v=...)),
@@ -87,6 +89,12 @@ TEMPLATES = {
     'e_bool_or': '__FST_a or __FST_b or z',
     'e_bool_whole': 'f(__FST_b) and __FST_',
     'e_bool_zz': '__FST_b and __FST_a and __FST_zz',
+    'e_peel_l': '__FST_l',
+    'e_peel_x': '__FST_x',
+    'e_peel_fn': '__FST_fn',
+    'e_peel_v': '__FST_v',
+    'e_peel_first': '__FST_first',
+    'e_peel_a': '__FST_a',
     's_ident': '__FST_',
     's_wrap_if': 'if cond:\n    __FST_',
     's_try': 'try:\n    __FST_\nfinally:\n    done()',
@@ -113,6 +121,42 @@ TEMPLATES = {
     's_raise_wrap': 'raise wrap(__FST_e)',
 }
 
+
+# several locations of DIFFERENT depth per peelable shape, shallow ones before and after deep ones: under a finite
+# `loop` every location has to be re-substituted while it still matches, each with a fresh budget
+PEEL_PROGRAM = '''\
+r1 = a + 0
+r2 = b + 0 + 0 + 0
+r3 = c + 0 + 0
+r4 = d + 0 + 0 + 0 + 0
+n1 = not p
+n2 = not not not q
+n3 = not not r
+l1 = [x]
+l2 = [[[y]]]
+l3 = [[z]]
+c1 = f(1)
+c2 = g(1)(2)(3)(4)
+c3 = h(1)(2)
+a1 = o.a
+a2 = o.a.b.c.d
+a3 = o.a.b
+s1 = m[0]
+s2 = m[0][1][2]
+s3 = m[0][1]
+b1 = (u and v)
+b2 = ((u and v) and w) and (x and y)
+k1 = e < f
+if t1:
+    x = 1
+if t2:
+    if t3:
+        if t4:
+            y = 1
+if t5:
+    if t6:
+        z = 1
+'''
 
 # programs written for this check (added to the shared corpus): shapes that the slot classes above need in quantity
 EXTRA_PROGRAMS = [
@@ -203,7 +247,7 @@ idx = data[lo + 1][hi - 1]
 
 def programs():
     from corpus.programs import PROGRAMS
-    return list(PROGRAMS) + EXTRA_PROGRAMS
+    return list(PROGRAMS) + EXTRA_PROGRAMS + [PEEL_PROGRAM]
 
 
 def template_tops(src: str, cat: str):
@@ -428,7 +472,11 @@ def run_case(rec: Recorder, tid: int, src: str, pat_id: str, tmpl_src: str, cat:
         pre, mf, ok, loopcont = cur['pre']
         post = rec.state(f)
         has_ref, valid, exp_s = ev_ref(pre['_src'], mf if ok else None)
-        steps.append({'k': 'subst', 'pre': pre, 'm': jmatch(mf), 'matchedOk': ok, 'loopcont': loopcont,
+        try:
+            still = replaced is not None and replaced.match(pat) is not None    # what subn() itself asks before looping
+        except Exception:  # noqa: BLE001
+            still = False
+        steps.append({'k': 'subst', 'still': still, 'pre': pre, 'm': jmatch(mf), 'matchedOk': ok, 'loopcont': loopcont,
                       'hasRef': has_ref, 'expValid': valid, 'expS': exp_s, 'post': post})
         cur['last'] = replaced
 
